@@ -48,6 +48,36 @@ theorem table_content_unchanged (lines : List String) :
     simp only [upgradeTable]
     split <;> exact ⟨rfl, rfl⟩
 
+/-- ... hence a reader sees the same rows: for ANY line filter that drops version lines (as every comment filter does: a version
+  line starts with '#'), the upgraded table keeps exactly the lines of the original table, in the same order -/
+theorem upgraded_table_same_rows (keep : String → Bool) (hv : ∀ l, isVersionLine l = true → keep l = false)
+    (hf : keep Gen.Headers.formatLine = false) (lines : List String) :
+    (upgradeTable lines).filter keep = lines.filter keep := by
+  cases lines with
+  | nil => simp [upgradeTable, hf]
+  | cons l rest =>
+    simp only [upgradeTable]
+    split
+    · rename_i h; simp [List.filter_cons, hf, hv l h]
+    · simp [List.filter_cons, hf]
+
+/-- OBSERVATIONS: after regrouping, a point index holds exactly the (image, feature) tokens of ITS rows of the 1.0 file, in file
+  order — nothing lost, nothing attributed to another point; an index without rows has no group -/
+theorem observations_regrouped (entries : List (Int × List String)) (i : Int) :
+    Dict.get? i (groupEntries entries) =
+      if entries.any (fun e => e.1 == i) then some (pairsOf i entries) else none := by
+  exact groupEntries_get entries i
+
+/-- ... the groups are written sorted by index, each of them once (a permutation of the groups) -/
+theorem observation_rows_perm (l : List (Int × List String)) : (sortGroups l).Perm l := sortGroups_perm' l
+
+/-- ... one row per group: point index, THE KEYPOINTS TYPE, then the tokens; after the 1.1 version line and the columns comment -/
+theorem observations_relabelled (ty : String) (lines : List String) :
+    relabelObservations ty lines =
+      [Gen.Headers.formatLine, "# point3d_id, keypoints_type, [image_path, feature_id]*"] ++
+        (sortGroups (groupEntries (observationEntries lines))).map
+          (fun g => ", ".intercalate (String.ofList (Csv.showInt g.1) :: ty :: g.2)) := rfl
+
 /-- both routes rewrite the tables, the descriptor files and the observations identically: they apply the same plan -/
 theorem routes_share_plan (p : Params) (t : Tree) (pl : Plan) (h : plan p t = Except.ok pl) :
     (∃ t₁, upgradeInplace p t = Except.ok t₁) ∧ (∃ t₂, upgradeCopy p t = Except.ok t₂) := by
